@@ -41,6 +41,9 @@ class TensorM(MTerm):
 
 
 TensorM.__model_class__ = TensorM
+# Funsor.input_vars: the set of Variable(name, domain); operands are well-typed (a shared name has one domain), so the set of
+# names represents it
+TensorM.input_vars = property(lambda self: frozenset(("Variable", k) for k in self.inputs))
 
 
 def sizes(p, n, name="n"):
@@ -581,6 +584,156 @@ class EagerBinaryTensorTensor(Contract):
         return cl
 
 
+MMF = z3.Function("matmul_summand", z3.IntSort(), z3.IntSort(), z3.IntSort())
+
+
+class SqArr(SArr):
+    """array with numpy's squeeze(axis) (axis must be a unit dimension)"""
+
+    def squeeze(self, axis):
+        from .arrays import is_one
+
+        ax = axis % len(self.shape)
+        if not (is_one(self.shape[ax]) or truth(deep_eq(self.shape[ax], 1))):
+            raise Declined("ValueError", "cannot select an axis to squeeze out which has size not equal to one")
+        g = self.get
+        return SqArr(self.shape[:ax] + self.shape[ax + 1:], lambda idx: g(tuple(idx[:ax]) + (0,) + tuple(idx[ax:])), self.dtype)
+
+
+class MatmulM:
+    """numpy matmul on operands of rank >= 2: leading dims broadcast, (.., n, m) @ (.., m, p) -> (.., n, p).  An element of the
+    result is a sum over the contraction index; two such sums are equal when their summands are equal for EVERY index, so the
+    model returns the summand at one generic index J (a fresh symbolic constant fixed per obligation)."""
+
+    name = "matmul"
+
+    def __init__(self, J):
+        self.J = J
+
+    def __call__(self, a, b):
+        from .arrays import same_size
+
+        if len(a.shape) < 2 or len(b.shape) < 2:
+            raise Unsupported("matmul model needs rank >= 2 operands")
+        if not (same_size(a.shape[-1], b.shape[-2]) or core.cur().entails(core._lift(deep_eq(a.shape[-1], b.shape[-2])))):
+            raise Declined("ValueError", "matmul: inner dimensions differ")
+        la, lb = a.shape[:-2], b.shape[:-2]
+        n = max(len(la), len(lb))
+        shape, ua, ub = [], {}, {}
+        for pos in range(n):
+            ia, ib = pos - (n - len(la)), pos - (n - len(lb))
+            if ia < 0:
+                shape.append(lb[ib])
+            elif ib < 0:
+                shape.append(la[ia])
+            else:
+                sz, x, y = bcast_pair(la[ia], lb[ib])
+                shape.append(sz)
+                ua[ia], ub[ib] = x, y
+        J = self.J
+
+        def get(idx):
+            lead, i, k = idx[:n], idx[n], idx[n + 1]
+            ia = tuple(0 if ua.get(q, False) else lead[q + n - len(la)] for q in range(len(la)))
+            ib = tuple(0 if ub.get(q, False) else lead[q + n - len(lb)] for q in range(len(lb)))
+            return SV(MMF(core._lift(a.get(ia + (i, J))), core._lift(b.get(ib + (J, k)))))
+
+        return SqArr(tuple(shape) + (a.shape[-2], b.shape[-1]), get)
+
+
+@register
+class EagerMatmulTensorTensor(Contract):
+    """eager_binary_tensor_tensor for matmul (second rule of that name): result inputs = union of the operands' inputs (lhs
+    order, then new rhs names); the operands are combined BY NAME -- operands listing the same inputs in a different order
+    are aligned, never matched positionally --; a vector operand is a row (lhs) / column (rhs) and the unit dimension it
+    gets is squeezed out of the result; for every index and every contraction index j
+        summand(result[batch idx, i, k], j) == lhs[its own batch names, i, j] * rhs[its own batch names, j, k].
+    structure bound: <= 2 names per operand, event ranks 1..2 (quick) / 1..3 with broadcasting leading event dims (thorough)."""
+
+    props = ("C01", "C02")
+    file = "funsor/tensor.py"
+    qualname = "eager_binary_tensor_tensor"
+    ordinal = 1
+    max_paths = 6000
+    mutants = (
+        ("operands with the same names in another order used positionally", "    if lhs.inputs == rhs.inputs:\n        inputs = lhs.inputs\n        lhs_data, rhs_data = lhs.data, rhs.data\n    else:\n        inputs, (lhs_data, rhs_data) = align_tensors(lhs, rhs)\n    if len(lhs.shape) == 1:", "    if set(lhs.inputs) == set(rhs.inputs):\n        inputs = lhs.inputs\n        lhs_data, rhs_data = lhs.data, rhs.data\n    else:\n        inputs, (lhs_data, rhs_data) = align_tensors(lhs, rhs)\n    if len(lhs.shape) == 1:"),
+        ("vector lhs treated as a column", "        lhs_data = ops.unsqueeze(lhs_data, -2)", "        lhs_data = ops.unsqueeze(lhs_data, -1)"),
+    )
+
+    def structures(self, tier):
+        pool = ["", "a", "ab", "ba", "b"]
+        ranks = (1, 2) if tier == "quick" else (1, 2, 3)
+        for ln in pool:
+            for rn in pool:
+                for le in ranks:
+                    for re_ in ranks:
+                        yield "lhs=%s/%d,rhs=%s/%d" % (ln or "-", le, rn or "-", re_), (ln, rn, le, re_)
+
+    def build(self, p, st):
+        ln, rn, le, re_ = st
+        lhs, lbs, les = mk_tensor(p, tuple(ln), le, "L")
+        rhs, rbs, res_ = mk_tensor(p, tuple(rn), re_, "R")
+        for n in rn:
+            if n in lbs:
+                p.assume(rbs[n] == lbs[n])
+        # well-typed matmul: the contracted sizes agree
+        p.assume(les[-1] == (res_[-2] if re_ >= 2 else res_[-1]))
+        with_shape(lhs)
+        with_shape(rhs)
+        J = p.fresh_int("J")
+        p.assume(And(0 <= J, J < les[-1]))
+
+        class OpsNS(OpsArrayNS):
+            @staticmethod
+            def unsqueeze(d, dim):
+                sh = list(d.shape)
+                pos = dim % (len(sh) + 1)
+                sh.insert(pos, 1)
+                return d.reshape(tuple(sh))
+
+        ns = dict(TENSOR_NS, ops=OpsNS, find_domain=find_domain_model, align_tensors=align_tensors_model, len=len, max=max)
+        return Ctx(args=(MatmulM(J), lhs, rhs), namespace=ns, lhs=lhs, rhs=rhs, lbs=lbs, rbs=rbs, les=les, res=res_, st=st, p=p, J=J)
+
+    def may_raise(self, ctx, etype):
+        return etype == "ValueError" and max(ctx.st[2], ctx.st[3]) >= 3  # leading event dims that do not broadcast
+
+    def ensures(self, ctx, result):
+        ln, rn, le, re_ = ctx.st
+        if not isinstance(result, TensorM):
+            return [("returns_tensor", False)]
+        names = list(ln) + [n for n in rn if n not in ln]
+        bsz = [ctx.lbs[n] if n in ctx.lbs else ctx.rbs[n] for n in names]
+        cl = [("inputs_are_the_union_in_order", list(result.inputs) == names and And(*[deep_eq(result.inputs[n].dtype, s) for n, s in zip(names, bsz)]))]
+        lead_l, lead_r = max(le - 2, 0), max(re_ - 2, 0)
+        nlead = max(lead_l, lead_r)
+        erank = nlead + (1 if le >= 2 else 0) + (1 if re_ >= 2 else 0)
+        if len(result.data.shape) != len(names) + erank:
+            return cl + [("event_rank", False)]
+        cl.append(("event_rank", True))
+        idx = fresh_index(ctx.p, result.data.shape)
+        bidx, eidx = idx[: len(names)], list(idx[len(names):])
+        lead = eidx[:nlead]
+        rest = eidx[nlead:]
+        i = rest.pop(0) if le >= 2 else None
+        k = rest.pop(0) if re_ >= 2 else None
+        J = ctx.J
+
+        def lead_of(esz, nl):
+            out = []
+            for q in range(nl):
+                pos = q + nlead - nl
+                out.append(If(deep_eq(esz[q], 1), 0, lead[pos]))
+            return tuple(out)
+
+        lb = tuple(bidx[names.index(n)] for n in ln)
+        rb = tuple(bidx[names.index(n)] for n in rn)
+        l_el = ctx.lhs.data.get(lb + lead_of(ctx.les, lead_l) + ((i, J) if le >= 2 else (J,)))
+        r_el = ctx.rhs.data.get(rb + lead_of(ctx.res, lead_r) + ((J, k) if re_ >= 2 else (J,)))
+        exp = SV(MMF(core._lift(l_el), core._lift(r_el)))
+        cl.append(("every_summand_pairs_the_operands_at_the_same_named_point", Implies(in_range(idx, result.data.shape), result.data.get(idx) == exp)))
+        return cl
+
+
 REDF = "reduced"
 
 
@@ -746,7 +899,7 @@ class TensorEagerSubsRename(Contract):
     f(j=Slice('i', ..)) and repeated targets cannot be in-place renames (they are diagonals).  No pair is lost.
     structure bound: <= 3 inputs, event rank <= 1."""
 
-    props = ("C04", "C01")
+    props = ("C04", "C01", "C05")
     file = "funsor/tensor.py"
     qualname = "Tensor.eager_subs"
     max_paths = 6000
@@ -867,7 +1020,7 @@ class TensorEagerSubsAdvanced(Contract):
     (shared), even the very name it is substituted for (x(a=T(a)): T's a is the caller's, of any size).
     structure bound: self has <= 2 inputs, event rank <= 1; value tensors have <= 2 inputs."""
 
-    props = ("C01", "C04")
+    props = ("C01", "C04", "C05")
     file = "funsor/tensor.py"
     qualname = "Tensor.eager_subs"
     total = True
